@@ -368,6 +368,11 @@ func allProps(c *Contract) []string {
 			set[p] = true
 		}
 	}
+	for _, a := range c.Asserts {
+		for _, p := range a.Cl.Props {
+			set[p] = true
+		}
+	}
 	for _, r := range c.Requires {
 		if r.CallSiteOnly {
 			continue
